@@ -14,7 +14,11 @@ PROP = dict(
          "apart)}; seeds from tlb.Marshal of reflect-generated values, from subtrees of the repository's real blocks and "
          "from hand-built VM tuples; abi message decoders; account-state / block-header proof decoders on damaged real "
          "proofs; the ~120 get-method result decoders (abi.KnownGetMethodsDecoder) on VM stacks of the right shape with hostile "
-         "contents; GetTransactions against an in-process lite server. "
+         "contents; GetTransactions against an in-process lite server; hand-written UnmarshalTLB methods (listed by go/ast): every seed plus "
+         "the flag-combination variants synthesised from it (bit flip + repair until the real decoder accepts again; BlockInfo "
+         "crafted for all 16 flag combinations) x exhaustive single-position damage (ref removed/pruned/library/duplicated at "
+         "every position, truncation and flip at every bit, flip with each ref removed); processQueryAnswer/decodeLength with "
+         "declared lengths real-4..real+8 in len==cap buffers. "
          "non-trivial = distinct (type, malformed input) for explicit lines, distinct (type, stream, seed) batch for the "
          "seeded TL-B streams (a batch line stands for up to 50 inputs regenerated from its seed)",
     trusted_base=[
@@ -51,6 +55,9 @@ PROP = dict(
         "generated client methods need a connection and are exercised only through GetTransactions",
         "time is measured against deadlines on the Go side (200 ms + 50 us per unfolded cell; 200 ms + 20 us per TL byte); "
         "the proved bounds are on model steps",
+        "branches of hand-written UnmarshalTLB methods not reached by any ACCEPTED seed are listed in evidence/C08_branches.txt "
+        "(tools_c08_branches.py, coverage-instrumented harness): 316 of 361 non-error blocks reached, 37 of 56 methods "
+        "completely; VmCont/VmTuple have no valid encoding (decoders return 'not implemented')",
         "tl.Marshal panics on a struct with an unexported field (reflect.Value.Interface): encoder side, user types only, "
         "not untrusted input — noted, not counted",
     ],
